@@ -292,6 +292,13 @@ func (fc *followerController) NewTerm(req *proto.NewTermRequest) (*proto.NewTerm
 	fc.status = proto.ServingStatus_FENCED
 	fc.closeStreamNoMutex(nil)
 
+	// Entries that were appended but not synced yet are not visible in the WAL: make sure
+	// they are, otherwise the head entry reported here would not be the real end of the
+	// log, and the log would "grow" after the node has been fenced
+	if err := fc.wal.Sync(context.Background()); err != nil {
+		return nil, errors.Wrap(err, "failed to sync the wal")
+	}
+
 	lastEntryId, err := getLastEntryIdInWal(fc.wal)
 	if err != nil {
 		fc.log.Warn(
